@@ -4,6 +4,7 @@ import RsMatterVerif.Lemmas.CodecVerhoeff
 import RsMatterVerif.Lemmas.CodecManual
 import RsMatterVerif.Lemmas.CodecHeaders
 import RsMatterVerif.Lemmas.CodecBtpBdx
+import RsMatterVerif.Lemmas.CodecQr
 import RsMatterVerif.Lemmas.CodecCheckIn
 /-!
 # C17 — headers, onboarding payloads and discovery records decode what was encoded
@@ -153,6 +154,36 @@ theorem status_report_unknown_general_code_rejected (g : Nat) (rest : List Nat)
     (h : StatusReport.GENERAL_CODE_MAX < g) (h' : g < 65536) :
     StatusReport.read (le16 g ++ rest) = .error .invalidOpcode :=
   StatusReport.read_rejects_general g rest h h'
+
+/-! ## (6) QR onboarding payload: 3+16+16+2+8+12+27+4 bits, base-38 body, optional TLV tail -/
+
+/-- `parse (as_str q) = q`, including any optional-TLV bytes -/
+theorem qr_parse_encode (q : QrPayload.Qr) (hwf : QrPayload.WF q) (cap : Nat) (hcap : 11 + q.tlv.length ≤ cap) :
+    ∃ cs, QrPayload.encode q = .ok cs ∧ QrPayload.parse cs cap = .ok q :=
+  QrPayload.parse_encode q hwf cap hcap
+def qrSample : QrPayload.Qr :=
+  { version := 0, vid := 9050, pid := 65279, flow := 0, rendezvous := 2, disc := 2976
+    pass := 34567890, tlv := [0x15, 0x18] }
+example : QrPayload.WF qrSample := by
+  refine ⟨by decide, by decide, by decide, by decide, by decide, by decide, by decide, ?_⟩
+  intro b hb; simp [qrSample] at hb; omega
+
+theorem qr_parse_total (s : List Nat) (cap : Nat) : NoPanic (QrPayload.parse s cap) :=
+  QrPayload.parse_np s cap
+
+/-- out-of-range / malformed QR texts are refused: no `MT:` prefix, a character outside the base-38
+alphabet, an impossible length class, fewer than 11 decoded bytes, the undefined commissioning flow 3 -/
+theorem qr_out_of_range_rejected :
+    (∀ s cap, QrPayload.stripPrefix s = none → QrPayload.parse s cap = .error .invalidData) ∧
+    (∀ body cap, ((∃ c ∈ body, c ∉ Base38.alphabet) ∨ body.length % 5 = 1 ∨ body.length % 5 = 3) →
+      ∃ e, QrPayload.parse (QrPayload.PREFIX ++ body) cap = .error e) ∧
+    (∀ body bytes cap, Base38.decode body = (bytes, none) → bytes.length < 11 →
+      ∃ e, QrPayload.parse (QrPayload.PREFIX ++ body) cap = .error e) ∧
+    (∀ body bytes cap, Base38.decode body = (bytes, none) → (∀ b ∈ bytes, b < 256) → 11 ≤ bytes.length →
+      bytes.length ≤ cap → fromLe bytes / 2 ^ 35 % 2 ^ 2 = 3 →
+      QrPayload.parse (QrPayload.PREFIX ++ body) cap = .error .invalidData) :=
+  ⟨QrPayload.parse_rejects_prefix, QrPayload.parse_rejects_bad_base38, QrPayload.parse_rejects_short,
+   QrPayload.parse_rejects_flow⟩
 
 /-! ## (7) BTP packet header and handshake -/
 
